@@ -6,6 +6,6 @@ CONSTANTS
   Star = FALSE
   FewPerms = {{}, {3, 12}, {5, 10}, {3, 4, 5, 6, 9, 10, 11, 12}}
   ManyPerms <- AllPermSets
-  Corpus = {"testWithText.pdf", "annotTest.pdf", "Acroforms2.pdf", "Hybrid-PDF.pdf", "zineTest.pdf", "T6.pdf", "bookletTestA6.pdf", "OptimizeTest.pdf", "test.pdf"}
+  Corpus = {"rich_objstm", "testWithText.pdf", "annotTest.pdf", "Acroforms2.pdf", "Hybrid-PDF.pdf", "zineTest.pdf", "T6.pdf", "bookletTestA6.pdf", "OptimizeTest.pdf", "test.pdf"}
   Emit = TRUE
 INVARIANTS RoundTrip EmitCase
